@@ -19,7 +19,7 @@ from sim.runner import Outcome
 
 ID = "C10"
 LEVEL = "fault_enumeration"
-RUN_WALL_S = 40
+RUN_WALL_S = 150
 TIERS = {
     "quick": {"cases": 16000, "episode": 50, "selftest": 32, "wall_cap_s": 600, "shrink_s": 45},
     "thorough": {"cases": 600_000, "episode": 100, "selftest": 256, "wall_cap_s": 3 * 3600, "shrink_s": 120},
